@@ -103,9 +103,19 @@ def gen_case(rng, tier):
         pp = {'path': (f'host{i}',) + {'kw': ('p',), 'nested': ('opts', 'p'), 'pos': (1,)}[where], 'name': f'r{i}', 'top': f'host{i}', 'arg_of': True, 'forced': forced}
         prods.append(pp)
         arg_prods.append(pp)
+    # a list of producers from which a later stage removes several elements at once, addressing them by position in any key order
+    lp_del = []
+    if rng.random() < 0.25:
+        m = rng.choice([3, 4, 5])
+        base_i = n_prod + 10
+        items.append(['lp', L([SP('call', func=f'verif_targets.r{base_i + k}', args=M([['x', S(k)]])) for k in range(m)])])
+        lp_del = rng.sample(range(m), rng.choice([2, 2, 3]) if m > 3 else 2)
+        rng.shuffle(lp_del)
+        for k in range(m):
+            prods.append({'path': ('lp', k), 'name': f'r{base_i + k}', 'top': 'lp', 'lp': True, 'lp_deleted': k in lp_del})
     # deletions by a later stage (only producers without consumers)
-    deleted = [p for p in prods if p.get('arg_of') or rng.random() < 0.2]
-    alive = [p for p in prods if p not in deleted]
+    deleted = [p for p in prods if p.get('arg_of') or p.get('lp_deleted') or (not p.get('lp') and rng.random() < 0.2)]
+    alive = [p for p in prods if p not in deleted and not p.get('lp')]
     cons = []            # {'key', 'kind', 'of': producer path}
     n_cons = rng.choice([0, 1, 2, 3, 5, 8]) if alive else 0
     for j in range(n_cons):
@@ -144,8 +154,13 @@ def gen_case(rng, tier):
     docs = [doc]
     if deleted:
         d2 = M([])
+        if lp_del:
+            keys = [(k - m if rng.random() < 0.3 else k) for k in lp_del]          # (some positions counted from the end)
+            d2['items'].append(['lp', M([[k, S(None, vdel=True)] for k in keys])])
         for p in deleted:
             how = rng.choice(['scalar', 'vdel', 'clear_top', 'del_top'])
+            if p.get('lp'):
+                continue
             if p.get('arg_of'):
                 i = p['name'][1:]
                 same = not p['forced'] and rng.random() < 0.4
